@@ -7,7 +7,7 @@ for m in mods: importlib.import_module(m)
 only = sys.argv[2:] 
 items = C.all_contracts() + C.LEMMAS
 for c in items:
-    if only and not any(o in c.qual for o in only): continue
+    if only and not any(o in (c.qual + '#' + str(getattr(c, 'variant', ''))) for o in only): continue
     rep = C.verify_contract(c)
     st = {}
     for ob in rep.obligations: st[ob.status] = st.get(ob.status,0)+1
